@@ -830,7 +830,8 @@ def c18(run):
     run.assumptions = AUTHZ_ASSUME
     t = "thorough" if run.tier == "thorough" else "quick"
     insts = life_check(run, [("Lifecycle_snapshot_" + t, "L1 SnapshotEquiv / SaveRefusedIffEvaluated + export", {}),
-                             ("Lifecycle_resnapshot", "L1 ResnapEquiv (snapshot of a restored authorizer restored again: all three agree) + export", {})])
+                             ("Lifecycle_resnapshot", "L1 ResnapEquiv (snapshot of a restored authorizer restored again: all three agree) + export", {}),
+                             ("Lifecycle_loadreset_" + t, "L1 + export: snapshots loaded into ONE authorizer that is Reset between the loads (each load behaves like a load into a fresh authorizer)", {})])
     # malformed snapshots: seeded byte corruption of real snapshots and hand-encoded adversarial AuthorizerPolicies messages
     driver = core.build_driver(run.work)
     contents = [h["arg"] for c in insts for h in c["hist"] if h["op"] == "add"]
